@@ -159,7 +159,53 @@ pub fn check(case: &Case, obs: &mut Obs) -> Result<(), Fail> {
     Ok(())
 }
 
+/// A long-lived thread: counters, epochs and generation tags kept per thread wrap around after 2^8 or 2^16 events.
+/// Everything here is a pure function of (wrap, seed) and runs on the calling thread. Phase A: 64 version-1 symbols
+/// with generated payloads, the level cycling L, M, Q, H so that every build uses another generator polynomial than
+/// the one before (each is checked). Phase B: the constant payload "1" alternating between L and M until
+/// `wrap - 64 - 40` builds have been made in total (unchecked, they only advance whatever is being counted while
+/// touching as few coefficient values as possible). Phase C: 120 more generated payloads with the level cycle shifted
+/// by one, each checked in full: they cross the wrap, so an event number of phase A recurs with another generator
+/// in force and with rows / entries of phase A not refreshed since.
+pub fn check_long_thread(wrap: u32, seed: u64, obs: &mut Obs) -> Result<(), Fail> {
+    use crate::fq::Opts;
+    let gen_case = |i: u64, shift: usize| -> Case {
+        let r = splitmix(seed ^ splitmix(i));
+        let len = 1 + (r % 7) as usize;
+        let input: Vec<u8> = (0..len).map(|k| (splitmix(r.wrapping_add(k as u64)) >> 24) as u8).collect();
+        let level = LEVELS[(i as usize + shift) % 4];
+        Case { build: BuildCase::new(input, Opts { mode: Some(Mode::Byte), level: Some(level), version: Some(1), mask: Some((r >> 8) as u8 % 8) }), fam: "long_thread", corrupt: None }
+    };
+    let ctx = |phase: &str, i: u64, f: Fail| Fail { sig: format!("long_thread:{}", f.sig), msg: format!("{} build {} of a thread history with {} builds before the wrap (seed {}): {}", phase, i, wrap, seed, f.msg) };
+    for i in 0..64u64 {
+        check(&gen_case(i, 0), obs).map_err(|f| ctx("phase A", i, f))?;
+    }
+    let filler = wrap.saturating_sub(64 + 40) as u64;
+    for i in 0..filler {
+        let level = if i % 2 == 0 { Level::L } else { Level::M };
+        let r = crate::engine::catch(|| fast_qr::QRBuilder::new("1").ecl(crate::fq::f_level(level)).version(crate::fq::f_version(1)).mask(crate::fq::f_mask(0)).build().is_ok());
+        match r {
+            Ok(true) => {}
+            Ok(false) => return fail("long_thread:filler_refused", format!("the build of \"1\" at version 1 failed after {} builds on this thread", 64 + i)),
+            Err(p) => return fail(&crate::engine::panic_sig(&p), format!("the build of \"1\" at version 1 panicked after {} builds on this thread: {}", 64 + i, p)),
+        }
+    }
+    for i in 0..120u64 {
+        check(&gen_case(1000 + i, 1), obs).map_err(|f| ctx("phase C", i, f))?;
+    }
+    obs.count("long_thread_builds", 64 + filler + 120);
+    obs.label(&format!("long_thread:wrap_2^{}", 31 - wrap.leading_zeros()));
+    obs.nontrivial(crate::engine::hash_bytes(format!("long|{}|{}", wrap, seed).as_bytes()));
+    obs.sample(&format!("long_thread|{}", wrap), || json!({"long_thread": {"wrap": wrap, "seed": seed.to_string()}, "builds_on_the_thread": 64 + filler + 120}));
+    Ok(())
+}
+
 pub fn replay(_e: &Engine, case: &Value, obs: &mut Obs) -> Result<(), Fail> {
+    if let Some(l) = case.get("long_thread") {
+        let wrap = l.get("wrap").and_then(|x| x.as_u64()).unwrap_or(256) as u32;
+        let seed = l.get("seed").and_then(|x| x.as_str()).and_then(|x| x.parse::<u64>().ok()).unwrap_or(0);
+        return check_long_thread(wrap, seed, obs);
+    }
     let b = BuildCase::from_json(case).ok_or_else(|| Fail { sig: "bad_replay".into(), msg: "cannot parse case".into() })?;
     let corrupt = match case.get("corrupt_seed").and_then(|s| s.as_str()).and_then(|s| s.parse::<u64>().ok()) {
         Some(s) => Some((s, case.get("corrupt_full").and_then(|x| x.as_bool()).unwrap_or(true))),
@@ -178,7 +224,7 @@ pub fn run(e: &'static Engine) {
          reference Berlekamp-Massey/Chien/Forney decoder must recover the data codewords and payload. Non-trivial: >= 2 blocks, \
          or a two-group layout, or corruption applied; distinct by case hash.",
     );
-    e.extend_rule("block look-alike payloads and thread histories come in through the shared generators.");
+    e.extend_rule("block look-alike payloads and thread histories come in through the shared generators. Part long_lived_thread: one thread makes 2^8 or 2^16 version-1 builds whose generator polynomial changes at every build (64 checked, the filler unchecked), then 120 checked builds that cross the wrap with the level cycle shifted - per-thread counters, epochs and generation tags that wrap.");
     e.assume("refmodel Table 9 (typed) is right: guarded by blocks*ec+data=total identity and the qrcode-crate self-test");
     e.assume("refmodel GF(256)/RS decoder is right: unit-tested against computed codewords");
     crate::engine::run_regress(e, &|c, o| replay(e, c, o));
@@ -232,6 +278,21 @@ pub fn run(e: &'static Engine) {
         let corrupt = if bc.hash() % 4 == 0 { Some((bc.hash(), bc.hash() % 8 == 0)) } else { None };
         check(&Case { build: bc.clone(), fam: "shared", corrupt }, o).map(|_| { let _ = fam; })
     });
+    // long-lived threads: per-thread counters / epochs / generation tags that wrap after 2^8 or 2^16 events
+    let mut jobs: Vec<Job> = Vec::new();
+    let long16: u64 = e.tier.pick(2u64, 12);
+    for j in 0..(8 + long16) {
+        jobs.push(Box::new(move |jc: &mut JobCtx| {
+            let wrap: u32 = if j < 8 { 1 << 8 } else { 1 << 16 };
+            // the seed is not shrunk: every candidate costs a whole thread history
+            let strat = any::<u64>().no_shrink();
+            jc.run_prop((3 << 20) + j, &strat, if j < 8 { 2 } else { 1 }, move |s| json!({"long_thread": {"wrap": wrap, "seed": s.to_string()}}), move |s, o| {
+                o.label("part:long_lived_thread");
+                check_long_thread(wrap, *s, o)
+            });
+        }));
+    }
+    e.par(jobs);
     e.put("cells_total", json!(160 * 8));
     e.set_exhaustive(false, "all 160 (version, level) pairs x 8 masks are enumerated in every run; payloads and corruption patterns are sampled");
 }
